@@ -8,6 +8,9 @@ props = [json.loads(l) for l in open(os.path.join(HERE, "properties.jsonl"))]
 TRUST = "TLC 1.8 and the CommunityModules Json reader; the harness projection/wrappers (harness/project.py, record.py); CPython as executor of the library."
 
 CHECKS = {
+    "C18": dict(cat="model_checking", ref="DESIGN 8/C18",
+                text="TLC model-checks the generator state machine (Names.tla) for Fresh, NoClobber and the inductive invariant Covered over all interleavings of requests, uses, removals and reloads from every small input (names inside the generator namespace included); every name the real generator hands out inside real restructure behaviours - plain, with a to_dict/from_dict round trip between stages, and on inputs named inside the generator's namespace - is validated by TLC step by step (NamesTrace.tla).",
+                technique="TLC model checking of Names.tla plus trace validation (NamesTrace.tla) of generator calls recorded from the implementation"),
     "C01": dict(cat="model_checking", ref="DESIGN 8/C01",
                 text="Native TLC search (Walk.tla) of the product original graph x restructured hierarchy x control-variable valuation for every recorded stage state of every behaviour, in by-name and region-wise mode, to fix-point: all decision sequences of unbounded length per instance; instances: all closed CFGs <=4 nodes, 5-node ones modulo relabelling, seeded random larger ones, std-lib bytecode CFGs.",
                 technique="TLC state-space exploration of a TLA+ product machine (Walk.tla) built from states recorded from the implementation"),
